@@ -391,8 +391,9 @@ class GlueSerializer(object):
 
     def _disambiguate(self, name):
         # Names starting with st__ are interpreted as string literals when
-        # loading, so we make sure objects never get such a name
-        if name.startswith('st__'):
+        # loading, so we make sure objects never get such a name (note that
+        # 'st_' would turn into 'st__0' when a number is appended below)
+        if name.startswith('st__') or name == 'st_':
             name = '_' + name
 
         if name not in self._objs:
